@@ -16,6 +16,7 @@ import (
 	"context"
 	"encoding/json"
 	"fmt"
+	"strings"
 	"sync"
 	"sync/atomic"
 	"testing"
@@ -53,6 +54,78 @@ type c08Case struct {
 	// Churn: a history of subscriptions opened, advanced, finished and cancelled on one healthy connection (channel ids
 	// come and go while other channels stay open)
 	Churn []c08ChurnOp `json:"churn,omitempty"`
+	// RevStale > 0: a client-served (reverse-direction) stream whose producer is slow to notice the end of its context is
+	// open when the connection is reset; after the redial a new reverse stream of RevStale elements is opened and only
+	// then the old producer sends the rest of its values and closes. The new stream's consumer must see exactly its own values.
+	RevStale int `json:"rev_stale,omitempty"`
+}
+
+func runC08RevStale(c c08Case) (*Violation, string) {
+	rig, err := NewRig(RigOpts{Reverse: true, BackoffMin: 5 * time.Millisecond, BackoffMax: 20 * time.Millisecond})
+	if err != nil {
+		return nil, "rig"
+	}
+	defer rig.Close()
+	cl, err := rig.NewClient("c")
+	if err != nil {
+		return nil, "client"
+	}
+	hooks.Reset(c.Rules...)
+	defer hooks.Off()
+	noted := func(tok string) bool {
+		for t0 := time.Now(); time.Since(t0) < 4*time.Second; time.Sleep(2 * time.Millisecond) {
+			if contains(rig.W.Notes(tok), "sticky-first") {
+				return true
+			}
+		}
+		return false
+	}
+	tokA := rig.Tok("revold")
+	a := rig.Go(cl, "call", tokA, Plan{RevSticky: 4})
+	if !noted(tokA) {
+		return nil, "first reverse stream did not start"
+	}
+	rig.Proxy.CutAll("rst")
+	select {
+	case <-a.Done:
+	case <-time.After(5 * time.Second):
+		return nil, "call of the first generation still pending"
+	}
+	healed := false
+	for t0 := time.Now(); time.Since(t0) < 5*time.Second; time.Sleep(5 * time.Millisecond) {
+		if rig.Probe(cl, time.Second) == nil {
+			healed = true
+			break
+		}
+	}
+	if !healed {
+		return nil, "no reconnect"
+	}
+	tokB := rig.Tok("revnew")
+	b := rig.Go(cl, "call", tokB, Plan{RevSticky: c.RevStale})
+	if !noted(tokB) {
+		return violf("stream-stalled", "a reverse-direction stream opened after the reconnect did not deliver its first value within 4s"), ""
+	}
+	// now the producer of the previous connection's stream wakes up, sends the rest of its values and closes
+	rig.W.Release("revstream:" + tokA)
+	time.Sleep(150 * time.Millisecond)
+	rig.W.Release("revstream:" + tokB)
+	select {
+	case <-b.Done:
+	case <-time.After(15 * time.Second):
+		return violf("stream-stalled", "the handler consuming a reverse-direction stream opened after the reconnect did not finish within 15s"), ""
+	}
+	if b.Err != nil {
+		return nil, "second call failed: " + b.Err.Error()
+	}
+	if want := fmt.Sprintf("stream-ok:%d", c.RevStale); !strings.Contains(b.Res.Rev, want) {
+		key := "not-a-prefix"
+		if strings.Contains(b.Res.Rev, "stream-closed-after") {
+			key = "channel-closed-early"
+		}
+		return violf(key, "reverse-direction stream %s opened after a reconnect, while the producer of a stream from the previous connection was still at work: its consumer reports %q instead of %q", tokB, b.Res.Rev, want), ""
+	}
+	return nil, ""
 }
 
 type c08ChurnOp struct {
@@ -337,6 +410,9 @@ func runC08(c c08Case) (*Violation, string) {
 	if len(c.Churn) > 0 {
 		return runC08Churn(c)
 	}
+	if c.RevStale > 0 {
+		return runC08RevStale(c)
+	}
 	if c.Stale != nil {
 		return runC08Stale(c)
 	}
@@ -614,6 +690,9 @@ func c08NT(c c08Case) (bool, []string) {
 		cl = append(cl, "stale_owner_cancels")
 		return true, cl
 	}
+	if c.RevStale > 0 {
+		return true, append(cl, "reverse_stream_across_reconnect")
+	}
 	if len(c.Churn) > 0 {
 		// non-trivial: a subscription is opened after another one has ended while a third is still open
 		cl = append(cl, "churn")
@@ -684,13 +763,13 @@ func contains(s []string, x string) bool {
 	return false
 }
 
-const c08Rule = "1-3 paced subscriptions (length 0-40, early sends, k values delivered before the causes fire, consumer reading or stalled) x termination causes {handler closes, context cancelled, connection cut FIN/RST, client closed} alone and in racing pairs x positioned faults on the server->client frames of the stream (response, values, close notification; before/header/mid/last/after) x connection cuts triggered from inside the client's yield points (resp.found, chan.sink, closechans.begin, reconnect.begin, frame.read) with the library goroutine held for 2 ms. histories across a reconnect: 1-4 subscriptions on the first connection, a reset, 1-4 new subscriptions on the re-established connection, then the owners of a subset of the first generation cancel their contexts (the second generation must deliver every later value and close with its handler); churn histories on one healthy connection (open / advance / finish / cancel, 4-14 steps): every channel sees exactly the released prefix of its own stream and closes exactly when its handler finished or its context was cancelled while channel ids come and go around it. Non-trivial = a subscription opened after another ended while a third is open, or two causes racing, or a fault between two values; distinct by descriptor hash"
+const c08Rule = "1-3 paced subscriptions (length 0-40, early sends, k values delivered before the causes fire, consumer reading or stalled) x termination causes {handler closes, context cancelled, connection cut FIN/RST, client closed} alone and in racing pairs x positioned faults on the server->client frames of the stream (response, values, close notification; before/header/mid/last/after) x connection cuts triggered from inside the client's yield points (resp.found, chan.sink, closechans.begin, reconnect.begin, frame.read) with the library goroutine held for 2 ms. histories across a reconnect: 1-4 subscriptions on the first connection, a reset, 1-4 new subscriptions on the re-established connection, then the owners of a subset of the first generation cancel their contexts (the second generation must deliver every later value and close with its handler); a client-served stream whose producer outlives its connection, followed by a new client-served stream after the redial (the new consumer must see exactly its own values); churn histories on one healthy connection (open / advance / finish / cancel, 4-14 steps): every channel sees exactly the released prefix of its own stream and closes exactly when its handler finished or its context was cancelled while channel ids come and go around it. Non-trivial = a subscription opened after another ended while a third is open, or two causes racing, or a fault between two values; distinct by descriptor hash"
 
 func TestC08(t *testing.T) {
 	rec := NewRec("C08", c08Rule)
 	defer rec.Finish(t)
 	rec.EnableJournal()
-	rec.RequireClass("churn_open_after_end_with_others_open", "stale_owner_cancels", "handler_ignores_ctx", "cause_handler_close", "cause_ctx_cancel", "cause_cut_rst", "cause_client_close", "cause_fault", "racing_causes", "fault_between_values", "stalled_consumer", "trigger_resp.found")
+	rec.RequireClass("reverse_stale_ran_to_the_end", "reverse_stream_across_reconnect", "churn_open_after_end_with_others_open", "stale_owner_cancels", "handler_ignores_ctx", "cause_handler_close", "cause_ctx_cancel", "cause_cut_rst", "cause_client_close", "cause_fault", "racing_causes", "fault_between_values", "stalled_consumer", "trigger_resp.found")
 	run := func(ft failer, c c08Case) {
 		nt, cl := c08NT(c)
 		rec.Run(ft, c, nt, cl, func() *Violation {
@@ -802,6 +881,19 @@ func TestC08(t *testing.T) {
 	t.Run("churn", func(t *testing.T) {
 		run(t, c08Case{Churn: []c08ChurnOp{{Op: "open", N: 4}, {Op: "open", N: 5}, {Op: "finish", Sub: 0}, {Op: "open", N: 3}, {Op: "tick", Sub: 0, N: 2}, {Op: "tick", Sub: 1, N: 1}, {Op: "finish", Sub: 1}, {Op: "finish", Sub: 0}}})
 		run(t, c08Case{Churn: []c08ChurnOp{{Op: "open", N: 3}, {Op: "open", N: 3}, {Op: "open", N: 6}, {Op: "cancel", Sub: 1}, {Op: "open", N: 4}, {Op: "tick", Sub: 1, N: 3}, {Op: "cancel", Sub: 0}, {Op: "open", N: 2}, {Op: "open", N: 2}, {Op: "finish", Sub: 2}, {Op: "tick", Sub: 0, N: 1}}})
+	})
+	t.Run("reverse-stale", func(t *testing.T) {
+		for _, n := range []int{2, 5, 9} {
+			c := c08Case{RevStale: n}
+			nt, cl := c08NT(c)
+			rec.Run(t, c, nt, cl, func() *Violation {
+				v, why := runC08RevStale(c)
+				if v == nil && why == "" {
+					rec.Class("reverse_stale_ran_to_the_end", 1) // a scenario that cannot start must not pass for one that held
+				}
+				return v
+			})
+		}
 	})
 	rec.Rapid(t, "rapid-churn", func(rt *rapid.T) {
 		var c c08Case
